@@ -31,6 +31,17 @@ func (l *Lexer) NewTokenAt(tokenType token.Type, literal string, startLine, star
 	}
 }
 
+// literalToken makes the token of a string or template literal that has just been
+// scanned. A literal that ran into the end of the input without its closing
+// delimiter is not a literal: it is reported as an illegal token, so that the
+// parser rejects the program instead of silently accepting the truncated text.
+func (l *Lexer) literalToken(tokenType token.Type, value string, startLine, startColumn int) token.Token {
+	if l.position >= len(l.input) {
+		return l.NewTokenAt(token.ILLEGAL, "unterminated literal", startLine, startColumn)
+	}
+	return l.NewTokenAt(tokenType, value, startLine, startColumn)
+}
+
 func baseNextToken(l *Lexer) token.Token {
 	var tok token.Token
 	// every token starts where the cursor is now (two-character operators included)
@@ -137,15 +148,15 @@ func baseNextToken(l *Lexer) token.Token {
 	case '"':
 		// Capture position BEFORE reading the string
 		startLine, startColumn := l.Line, l.Column
-		tok = l.NewTokenAt(token.STRING, l.readString('"'), startLine, startColumn)
+		tok = l.literalToken(token.STRING, l.readString('"'), startLine, startColumn)
 	case '\'':
 		// Capture position BEFORE reading the string
 		startLine, startColumn := l.Line, l.Column
-		tok = l.NewTokenAt(token.STRING, l.readString('\''), startLine, startColumn)
+		tok = l.literalToken(token.STRING, l.readString('\''), startLine, startColumn)
 	case '`':
 		// Capture position BEFORE reading the raw string
 		startLine, startColumn := l.Line, l.Column
-		tok = l.NewTokenAt(token.RAW_STRING, l.readRawString(), startLine, startColumn)
+		tok = l.literalToken(token.RAW_STRING, l.readRawString(), startLine, startColumn)
 	case 0:
 		if l.position >= len(l.input) {
 			tok = l.NewToken(token.EOF, "")
